@@ -254,6 +254,18 @@ def format_contracts(model, f, enforced=None, needed=None):
         return txt if name == enforced else '1'
     def want(*names):
         return needed is None or any(n in needed for n in names)
+    shared = set()
+    for grp in model['spec'].get('shared_views', []):
+        if f.key in grp['formats']:
+            ren = grp.get('rename', {}).get(f.key, {})
+            shared.update(ren.get(x, x) for x in grp['fields'])
+    def own(base, row):
+        o = [base]
+        if f.key == 'vss' and row == 'acf_msg_length':
+            o.append('C09')
+        if row in shared:
+            o.append('C17')
+        return '+'.join(o)
     tu.add('/* ---- generated contracts: format %s (%s), oracle header length %d ---- */' % (f.key, f.P, f.H))
     tu.add('#include "%s"' % f.spec['header'])
     H, T, E = f.H, f.T, f.E
@@ -266,7 +278,7 @@ def format_contracts(model, f, enforced=None, needed=None):
         tu.add('__CPROVER_assigns()')
         tu.add('__CPROVER_ensures(pdu == NULL ==> (uint64_t)__CPROVER_return_value == 0)', 'C11:null-read-returns-0')
         tu.add('__CPROVER_ensures(pdu != NULL ==> (uint64_t)__CPROVER_return_value == vp_get_bits(pdu->header, %d, %d))' % (s, n),
-               '%s:getter-value(%s=%d/%d)' % ('C01+C09' if (f.key == 'vss' and row == 'acf_msg_length') else 'C01', row, s, n))
+               '%s:getter-value(%s=%d/%d)' % (own('C01', row), row, s, n))
         tu.add(';')
     # GetField
     p = f.getfield
@@ -289,7 +301,7 @@ def format_contracts(model, f, enforced=None, needed=None):
         tu.add('void %s(%s* pdu, %s value)' % (p['name'], T, vt))
         tu.add('__CPROVER_requires(%s && __CPROVER_is_fresh(pdu, %d) && %s)' % (B(p['name'], 'vp_wv == (uint64_t)value'), H, B(p['name'], bind_hdr(H))))
         tu.add('__CPROVER_assigns(__CPROVER_object_upto(pdu->header, %d))' % H)
-        put_clauses(tu, H, s, n, 'value', 'C02:setter-bytes(%s=%d/%d)' % (row, s, n))
+        put_clauses(tu, H, s, n, 'value', '%s:setter-bytes(%s=%d/%d)' % (own('C02+C05', row).replace('+C09', ''), row, s, n))
         tu.add(';')
         tu.add('void vp_null_%s(%s* pdu, %s value)' % (p['name'], T, vt))
         tu.add('__CPROVER_requires(pdu == NULL)')
@@ -299,7 +311,7 @@ def format_contracts(model, f, enforced=None, needed=None):
         tu.add('void vp_fit_%s(%s* pdu, uint64_t v)' % (p['name'], T))
         tu.add('__CPROVER_requires(%s && v <= VP_MASK64(%d) && __CPROVER_is_fresh(pdu, %d) && %s)' % (B('vp_fit_' + p['name'], 'vp_wv == v'), n, H, B('vp_fit_' + p['name'], bind_hdr(H))))
         tu.add('__CPROVER_assigns(__CPROVER_object_upto(pdu->header, %d))' % H)
-        tu.add('__CPROVER_ensures(vp_get_bits(pdu->header, %d, %d) == v)' % (s, n), '%s:setter-carries-every-fitting-value(%s)' % ('C02+C09' if (f.key == 'vss' and row == 'acf_msg_length') else 'C02', row))
+        tu.add('__CPROVER_ensures(vp_get_bits(pdu->header, %d, %d) == v)' % (s, n), '%s:setter-carries-every-fitting-value(%s)' % (own('C02', row), row))
         tu.add(';')
     # SetField
     p = f.setfield
@@ -309,7 +321,7 @@ def format_contracts(model, f, enforced=None, needed=None):
              % (B(p['name'], 'vp_wf == (unsigned)field && vp_wv == value'), f.MAX, H, B(p['name'], bind_hdr(H))))
       tu.add('__CPROVER_assigns(__CPROVER_object_upto(pdu->header, %d))' % H)
       for ename, (row, s, n) in f.enum_rows.items():
-          put_clauses(tu, H, s, n, 'value', 'C02:setfield-bytes(%s=%s %d/%d)' % (ename, row, s, n), guard='field == %s' % ename)
+          put_clauses(tu, H, s, n, 'value', 'C02+C05:setfield-bytes(%s=%s %d/%d)' % (ename, row, s, n), guard='field == %s' % ename)
       tu.add(';')
       tu.add('void vp_inactive_%s(%s* pdu, %s field, uint64_t value)' % (p['name'], T, E))
       tu.add('__CPROVER_requires(%s && (pdu == NULL || __CPROVER_is_fresh(pdu, %d)) && (pdu == NULL || (unsigned)field >= (unsigned)%s))' % (B('vp_inactive_' + p['name'], 'vp_wf == (unsigned)field'), H, f.MAX))
@@ -407,9 +419,9 @@ def legacy_contracts(model, f, lg, enforced=None):
             if extra:
                 s, n = f.rows[extra]
                 tu.add('__CPROVER_ensures(%s[%d] == vp_put_byte(0x%02x, %d, %d, %d, (uint64_t)%s))' % (hbs, k, img[k], k, s, n, extra),
-                       'C04:legacy-canonical-byte-%d' % k)
+                       'C04+C12:legacy-canonical-byte-%d' % k)
             else:
-                tu.add('__CPROVER_ensures(%s[%d] == 0x%02x)' % (hbs, k, img[k]), 'C04:legacy-canonical-byte-%d=0x%02x' % (k, img[k]))
+                tu.add('__CPROVER_ensures(%s[%d] == 0x%02x)' % (hbs, k, img[k]), 'C04+C12:legacy-canonical-byte-%d=0x%02x' % (k, img[k]))
         tu.add(';')
         tu.add('int vp_inval_%s(%s)' % (lg['init'], sig))
         tu.add('__CPROVER_requires(pdu == NULL)')
